@@ -38,7 +38,8 @@ Record xopc := { x_code : N; x_off : N; x_a : N; x_b : N; x_c : N }.
 Record case17x := { cx_mode : mode; cx_rkind : N; cx_size : N; cx_gbase : N; cx_page : N;
                     cx_ops : list xopc }.
 (* device events seen by the emulated gntdev during one operation *)
-Inductive dev_ev := DMap (gref count index : N) | DUnmap (index count : N).
+Inductive dev_ev := DMap (gref count index : N) | DUnmap (index count : N)
+  | DRefs (l : list (N * N)).   (* follows its DMap: the (domid, grant reference) of every page the request named *)
 (* r: 0 returned Err, 1 done, 2 panicked, 3 the process died (signal), 4 the kernel refused the guest buffer of
    a descriptor transfer with EFAULT: at the time of the read(2)/write(2) no mapping covered the bytes;
    data = 1 iff the backing memory (read back through the device file) and the returned bytes are
@@ -103,6 +104,39 @@ Definition ok_C17x (c : case17x) (o : obs17x) : bool :=
     (if cx_rkind c =? 3 then ox_mapped_alive o =? 0 else true) &&   (* none remains *)
     (ox_mapped_end o =? 0) && (ox_live_end o =? 0)
   else true.   (* the region could not be constructed (C15's domain): no access to judge *)
+
+(* ------------------------------------------------------------------ xen build: the pages a window NAMES
+   "a temporary mapping that covers all bytes it touches": page i of the window mapped by a request for (first, count)
+   shows guest page first + i only if the request names it so: its reference list has to be
+   (domid of the region, first + i) for i < count.  The regions of the cases are built with a non-zero domid: *)
+Definition case_domid (gbase page : N) : N := (gbase / page) mod 5 + 1.
+Fixpoint refs_seq (domid first : N) (l : list (N * N)) {struct l} : bool :=
+  match l with
+  | [] => true
+  | (d, r) :: t => (d =? domid) && (r =? first) && refs_seq domid (first + 1) t
+  end.
+(* every map request of the log is followed by its reference list, and that list is right *)
+Fixpoint maps_named (domid : N) (evs : list dev_ev) {struct evs} : bool :=
+  match evs with
+  | [] => true
+  | DMap g c _ :: r =>
+      match r with
+      | DRefs l :: r' => (N.of_nat (length l) =? c) && refs_seq domid g l && maps_named domid r'
+      | _ => false
+      end
+  | _ :: r => maps_named domid r
+  end.
+Definition strip_refs (evs : list dev_ev) : list dev_ev :=
+  filter (fun e => match e with DRefs _ => false | _ => true end) evs.
+Definition strip_op (p : opobs) : opobs :=
+  {| p_r := p_r p; p_data := p_data p; p_live := p_live p; p_evs := strip_refs (p_evs p) |}.
+Definition strip_obs (o : obs17x) : obs17x :=
+  {| ox_built := ox_built o; ox_ops := map strip_op (ox_ops o); ox_mapped_alive := ox_mapped_alive o;
+     ox_mapped_end := ox_mapped_end o; ox_live_end := ox_live_end o |}.
+(* the history checker, plus: every window names the pages it is judged to cover *)
+Definition ok_C17xn (c : case17x) (o : obs17x) : bool :=
+  ok_C17x c (strip_obs o) &&
+  forallb (fun p => maps_named (case_domid (cx_gbase c) (cx_page c)) (p_evs p)) (ox_ops o).
 
 (* ------------------------------------------------------------------ xen build: derivation chains (suite C17xenchain)
    A case: a region, an accessor obtained from it (root), a chain of derivations - each hands out a new accessor
@@ -190,4 +224,4 @@ Definition case17x_of (c : case17c) : case17x :=
      cx_page := cc_page c; cx_ops := [chain_xopc c] |}.
 (* judged exactly like the one-operation history: not faulted, data right, on an on-demand region a window of the
    operation covers the bytes, released afterwards, nothing remains *)
-Definition ok_C17c (c : case17c) (o : obs17x) : bool := ok_C17x (case17x_of c) o.
+Definition ok_C17c (c : case17c) (o : obs17x) : bool := ok_C17xn (case17x_of c) o.
